@@ -183,6 +183,15 @@ class Pat:
 
     def _orders(self, pats):
         yield pats
+        # `$t = E` followed by `if $t: ...`: the analysed source may hold the inlined form `if E: ...` (canonical when t is
+        # used nowhere else)
+        if len(pats) >= 2 and isinstance(pats[0], ast.Assign) and len(pats[0].targets) == 1 and isinstance(pats[0].targets[0], ast.Name) \
+                and isinstance(pats[1], ast.If) and isinstance(pats[1].test, ast.Name) and pats[1].test.id == pats[0].targets[0].id:
+            tname = pats[0].targets[0].id
+            rest_uses = any(isinstance(n, ast.Name) and n.id == tname for st in ([*pats[1].body, *pats[1].orelse] + list(pats[2:])) for n in ast.walk(st))
+            if not rest_uses:
+                merged = ast.If(test=pats[0].value, body=pats[1].body, orelse=pats[1].orelse)
+                yield [ast.copy_location(merged, pats[1])] + list(pats[2:])
         if len(pats) >= 2 and self._independent(pats[0], pats[1]):
             yield [pats[1], pats[0]] + list(pats[2:])
 
